@@ -111,7 +111,7 @@ theorem group_image (objs : List InSec) (cx : Ctx) (seg : Segment) (sec : Str) (
       lookupLast (cx.d.settings.style.secStart seg.name sec) st'.syms = some (.num s) ∧
       lookupLast (cx.d.settings.style.secEnd seg.name sec) st'.syms = some (.num e) ∧
       lookupLast (cx.d.settings.style.secSize seg.name sec) st'.syms = some (.num ((e + M32 - s % M32) % M32)) ∧
-      st'.placed = st.placed ++ new ∧ chainOk c.name s new e ∧
+      st'.placed = st.placed ++ new ∧ chainOk c.name s new e ∧ alignedAll c.subalign new ∧
       (∃ m, s ≤ m ∧ e = c.addr + alignO (lookup sec seg.sectionsEndAlignment) (alignO seg.sectionEndAlign (m - c.addr))) := by
   generalize hsty : cx.d.settings.style = sty at *
   have hshape : sectionSymStart cx seg sec ++ body ++ sectionSymEnd cx seg sec
@@ -136,7 +136,7 @@ theorem group_image (objs : List InSec) (cx : Ctx) (seg : Segment) (sec : Str) (
     rcases List.mem_append.1 hl with hl | hl
     · exact ⟨alignOpt_inner _ _ _ l hl, alignOpt_noinput _ l hl, alignOpt_symOf _ _ l hl⟩
     · exact ⟨alignOpt_inner _ _ _ l hl, alignOpt_noinput _ l hl, alignOpt_symOf _ _ l hl⟩
-  obtain ⟨s, e, new, st', hst', h1, h2, h3, h4, h5, hs, h6, h7, h8, h9, h10, mid, hmid, hsm, hem⟩ :=
+  obtain ⟨s, e, new, st', hst', h1, h2, h3, h4, h5, hs, h6, h7, h8, h9, h10, h11, mid, hmid, hsm, hem⟩ :=
     bracket_run objs sty seg.wildcardSections c _ body _ (sty.secStart seg.name sec) (sty.secEnd seg.name sec) (sty.secSize seg.name sec)
       (fun l hl => (hP l hl).1) (fun l hl => (hP l hl).2)
       (fun l hl => .body (hb l hl)) (fun l hl => (body_symOf sty _ l (hb l hl) seg.name sec).1)
@@ -144,7 +144,7 @@ theorem group_image (objs : List InSec) (cx : Ctx) (seg : Segment) (sec : Str) (
       (endsOk_ne_dot _ (secStart_ok _ _ _)) (endsOk_ne_dot _ (secEnd_ok _ _ _)) (endsOk_ne_dot _ (secSize_ok _ _ _))
       (secStart_ne_secEnd _ _ _ _ _) (secStart_ne_secSize _ _ _ _ _) (secEnd_ne_secSize _ _ _ _ _)
       st hin k
-  refine ⟨s, e, new, st', by rw [hst', hshape], ?_, h1, h2, h3, h4, h5, h6, h7, h8, h9, h10, mid.dot, hsm, ?_⟩
+  refine ⟨s, e, new, st', by rw [hst', hshape], ?_, h1, h2, h3, h4, h5, h6, h7, h8, h9, h10, h11, mid.dot, hsm, ?_⟩
   · rw [hs, execK_append]
     obtain ⟨i2, d2⟩ := two_aligns_dot objs seg.sectionStartAlign (lookup sec seg.sectionsStartAlignment) c st hin
       (gpLine cx seg sec ++ ([linkerSym (sty.secStart seg.name sec) .dot] ++ body
